@@ -9,7 +9,7 @@ use crate::keys::Key;
 use crate::oracles::*;
 use crate::spec::*;
 use rpm::signature::pgp::Verifier;
-use serde_json::{json, Value};
+use serde_json::json;
 use vlib::par::par_fold;
 use vlib::report::{catch, Acc, SubReport, Violation};
 
@@ -194,9 +194,4 @@ pub fn run(ctx: &Ctx, sub: &str, which: &'static [&'static str]) -> SubReport {
         ),
         acc,
     )
-}
-
-pub fn replay(ctx: &Ctx, v: &Value) -> i32 {
-    println!("re-run ./check {}; failing history: {}", ctx.property, v["case"]);
-    0
 }
